@@ -53,6 +53,8 @@ def run(ctx):
     mc = cc.solo_mc(ctx, "C02_solo_run", info, me, 1, ["Z0"], witness_k=2)
     rA = ctx.tlc(mc, mc + ".cfg", must_pass=True, timeout=2400, label="C02_solo", heap="8g")
     collect(rA)
+    tot["states"] += rA.distinct
+    tot["transitions"] += rA.generated
     # coverage-goal witnesses from time-limited breadth-first runs of larger configs (two valid adversarial
     # blocks; rounds 0..2 with an invalid block and the node's own proposal in round 2)
     for nm, mrw, vals, budget in (("C02_wit_a", 1, ["Z0", "Z1"], 60 if quick else 400), ("C02_wit_b", 2, ["Z0", "ZX"], 100 if quick else 600)):
